@@ -62,6 +62,9 @@ class CtxDict(dict):
         dict.__setitem__(self, self._k(pos), v)
 
 
+_FROZEN = False
+
+
 class _CpuTimeout(BaseException):
     pass
 
@@ -99,8 +102,12 @@ def memo_pair(f):
     """(f(False), f(True)) under the time limit.  The memoizing run alone hitting the limit counts as a difference
     (see _nem): it is confirmed with four times the limit before it is believed."""
     a = with_timeout(lambda: f(False))
+    if _timeout(a):
+        # a limit hit on a tiny input is usually a full garbage-collection pass of the worker (it inherits the runner's
+        # whole case list) falling into the parse: confirm with four times the limit before it counts as an observation
+        a = with_timeout(lambda: f(False), secs=12)
     b = with_timeout(lambda: f(True))
-    if _timeout(b) and not _timeout(a):
+    if _timeout(b):
         b = with_timeout(lambda: f(True), secs=12)
     return a, b
 
@@ -433,6 +440,15 @@ class Prop(Check):
 
     def impl(self, case):
         use_repo()
+        global _FROZEN
+        if not _FROZEN:
+            # objects inherited from the runner (all cases of the run) are never garbage: keep the collector off them,
+            # or every full collection inside a parse walks them again and eats the per-parse CPU limit
+            import gc
+
+            gc.collect()
+            gc.freeze()
+            _FROZEN = True
         o = outcome(lambda: (build(case["grammar"], case["cfg"], False), build(case["grammar"], case["cfg"], True)))
         if "ok" not in o:
             return {"grammar_error": o}
